@@ -2,6 +2,7 @@ import Zog.Path
 import Zog.Engine
 import Zog.IssuePaths
 import Zog.Props.FactsOK
+import Zog.Props.C15
 
 /-!
 # C10 — the issue map is well-formed and addresses every issue by its path
@@ -266,5 +267,12 @@ theorem node_files_below_itself (env : Env) (m : Mode) (s : Schema) (hpl : Spec.
     ∃ extra, (Spec.proc env m s tag path v d st).2.sink = st.sink ++ extra ∧
       ∀ i ∈ extra, (∃ suffix : List String, i.path = render (path ++ suffix)) ∨ i.path ∈ Spec.overrides s :=
   Spec.proc_at env m (Spec.overrides s) s hpl (fun _ h => h) tag path v d st
+
+/-- the source tag that keys the issues of a request is the one of the documented source: `query` for GET and
+    HEAD, `json` / `form` by media type (regenerated dispatch tables of zhttp.Request) -/
+theorem request_source_as_documented :
+    Gen.httpMethods = [("GET".toList, .query), ("HEAD".toList, .query)] ∧
+    Gen.httpTypes = [("application/json".toList, .json), ("application/x-www-form-urlencoded".toList, .form)] ∧
+    Gen.httpDefault = .query ∧ Gen.httpCutSep = [';'] ∧ Gen.httpUniform = true := C15.tables_as_documented
 
 end Zog.Props.C10
